@@ -91,6 +91,8 @@ def verify_function(world, qual, timeout_ms=10000):
     calls.USED_TRUSTED.clear()
     try:
         st = entry_state(ex, finfo, contract)
+        for r in contract.axioms:
+            st.assume(ex.spec(r, st))
         for r in contract.requires:
             st.assume(ex.spec(r, st))
         ex.entry = st.fork()
@@ -207,14 +209,16 @@ def model_to_py(m, limit=40):
 
 
 def solve_one(ob, timeout_ms):
+    """Decide one obligation.  `proved` needs unsat of (hypotheses and not goal) from some back end; every stage is sound for
+    unsat: hypotheses are only dropped or instantiated, the goal is only Skolemised and split into its conjuncts.
+    `refuted` needs a model of the full query; anything else is `undecided`."""
     if ob.verdict is not None:
         return
     t = time.time()
-    s = z3.Solver()
-    s.set('timeout', timeout_ms)
-    s.add(*ob.pc)
     if ob.kind == 'cover':
+        s = z3.Solver()
         s.set('timeout', min(timeout_ms, 1500))
+        s.add(*ob.pc)
         r = s.check()
         ob.seconds = time.time() - t
         ob.backend = 'z3'
@@ -228,63 +232,169 @@ def solve_one(ob, timeout_ms):
         ob.verdict, ob.backend, ob.seconds = 'proved', 'simplifier', time.time() - t
         return
     has_q = any_quantifier(ob.pc + [ob.goal])
+    if not has_q:
+        s = z3.Solver()
+        s.set('timeout', int(timeout_ms))
+        s.add(*ob.pc)
+        s.add(z3.Not(ob.goal))
+        r = s.check()
+        ob.backend = 'z3'
+        if r == z3.unsat:
+            ob.verdict = 'proved'
+        elif r == z3.sat:
+            ob.verdict, ob.model = 'refuted', model_to_py(s.model())
+        else:
+            ob.verdict, ob.note = 'undecided', s.reason_unknown()
+            r2 = cli_check(s, '/usr/bin/z3', timeout_ms // 1000 + 1)
+            if r2 == 'unsat':
+                ob.verdict, ob.backend = 'proved', 'z3-4.8.12-cli'
+            elif r2 is None:
+                r3 = cvc5_check(s, timeout_s=min(8, max(3, timeout_ms // 2000)))
+                if r3 == 'unsat':
+                    ob.verdict, ob.backend = 'proved', 'cvc5'
+        ob.seconds = time.time() - t
+        return
+    flat_pc = flatten_and(ob.pc)
+    # conjuncts of the goal that are literally among the hypotheses need no solver (callee preconditions that are the
+    # caller's own, unchanged)
+    have = {f.get_id() for f in flat_pc}
+    rest = [g_ for g_ in flatten_and([ob.goal]) if g_.get_id() not in have]
+    if not rest:
+        ob.verdict, ob.backend, ob.seconds, ob.note = 'proved', 'syntactic', time.time() - t, 'goal is among the hypotheses'
+        return
+    goal_sk, sk = skolemize(z3.And(*rest) if len(rest) > 1 else rest[0])
+    qf = [f for f in flat_pc if not any_quantifier([f])]
+    parts = split_goal(goal_sk)
+    notes, backends = [], set()
+    verdict = 'proved'
+    for c in parts:
+        v, backend, note, model = solve_conjunct(ob, flat_pc, qf, c, sk, timeout_ms)
+        backends.add(backend)
+        if note:
+            notes.append(note)
+        if v == 'refuted':
+            verdict, ob.model = 'refuted', model
+            break
+        if v == 'undecided':
+            verdict = 'undecided'
+            break
+    ob.verdict = verdict
+    ob.backend = '+'.join(sorted(b for b in backends if b)) or 'z3'
+    ob.note = '; '.join(sorted(set(notes)))[:300]
+    ob.seconds = time.time() - t
 
-    def attempt(hyps, goal, ms, cfg=None):
+
+def split_goal(g, depth=0):
+    """conjuncts of a Skolemised goal: And is split, (a -> (b and c)) becomes (a -> b), (a -> c)"""
+    if depth > 8:
+        return [g]
+    if z3.is_and(g):
+        out = []
+        for c in g.children():
+            out.extend(split_goal(c, depth + 1))
+        return out
+    if z3.is_implies(g) and (z3.is_and(g.arg(1)) or z3.is_implies(g.arg(1))):
+        return [z3.Implies(g.arg(0), c) for c in split_goal(g.arg(1), depth + 1)]
+    return [g]
+
+
+_last_stage = ['qf']
+
+
+def solve_conjunct(ob, flat_pc, qf, c, sk, timeout_ms):
+    r = _solve_conjunct(ob, flat_pc, qf, c, sk, timeout_ms)
+    if r[0] == 'proved' and r[2] in ('', 'inst', 'ematch'):
+        _last_stage[0] = r[2] or 'qf'
+    return r
+
+
+def _solve_conjunct(ob, flat_pc, qf, c, sk, timeout_ms):
+    def attempt(hyps, ms, cfg=None):
         s = z3.Solver()
         s.set('timeout', int(ms))
         for kk, vv in (cfg or {}).items():
             s.set(kk, vv)
         s.add(*hyps)
-        s.add(z3.Not(goal))
+        s.add(z3.Not(c))
         return s.check(), s
-
-    r, s, note = z3.unknown, None, ''
-    if not has_q:
-        r, s = attempt(ob.pc, ob.goal, timeout_ms)
-    else:
-        # staged portfolio; every stage is sound for `unsat` (hypotheses are only dropped or instantiated, the goal only Skolemised)
-        goal_sk, sk = skolemize(ob.goal)
-        qf = [f for f in ob.pc if not any_quantifier([f])]
-        stages = [('ematch', ob.pc, ob.goal, max(2500, timeout_ms // 3), {'smt.mbqi': False})]
-        if not any_quantifier([goal_sk]):
-            stages.append(('qf', qf, goal_sk, min(1500, timeout_ms), None))
-            stages.append(('inst', None, goal_sk, max(3000, timeout_ms // 3), None))
-        stages.append(('default', ob.pc, ob.goal, max(3000, timeout_ms // 3), None))
-        stages.append(('ematch-seed7', ob.pc, ob.goal, max(3000, timeout_ms // 3), {'smt.mbqi': False, 'smt.random_seed': 7}))
-        for name, hyps, goal, ms, cfg in stages:
-            if name == 'inst':
-                extra = instances(ob.pc, goal_sk, sk, qf)
-                if not extra:
-                    continue
-                hyps = qf + extra
-            r, s = attempt(hyps, goal, ms, cfg)
+    quantified_goal = any_quantifier([c])
+    third = max(2500, timeout_ms // 3)
+    extra = None
+    if _last_stage[0] == 'ematch':
+        # the stage that worked for the previous conjunct goes first
+        r, s = attempt(flat_pc, third, {'smt.mbqi': False})
+        if r == z3.unsat:
+            return 'proved', 'z3', 'ematch', None
+    if not quantified_goal:
+        r, s = attempt(qf, min(1000, timeout_ms))
+        if r == z3.unsat:
+            return 'proved', 'z3', '', None
+        extra = instances(flat_pc, c, sk, qf)
+        if extra:
+            r, s = attempt(qf + extra, third)
             if r == z3.unsat:
-                note = 'stage ' + name
-                break
-            if r == z3.sat and name == 'default':
-                break
-            if r == z3.unknown:
-                note = s.reason_unknown()
-            r = z3.unknown if r != z3.unsat else r
-    ob.backend = 'z3'
-    if r == z3.unsat:
-        ob.verdict = 'proved'
-        ob.note = note
-    elif r == z3.sat:
-        ob.verdict = 'refuted'
-        ob.model = model_to_py(s.model())
-    else:
-        ob.verdict = 'undecided'
-        ob.note = note
-        full = z3.Solver()
-        full.add(*ob.pc)
-        full.add(z3.Not(ob.goal))
-        r2 = cvc5_check(full, timeout_s=max(10, timeout_ms // 1000))
+                return 'proved', 'z3', 'inst', None
+    if _last_stage[0] != 'ematch':
+        r, s = attempt(flat_pc, third, {'smt.mbqi': False})
+        if r == z3.unsat:
+            return 'proved', 'z3', 'ematch', None
+    # fresh-process back ends on the SMT-LIB text (in-process z3 is sensitive to the term history of the context)
+    hyps = (qf + extra) if extra else flat_pc
+    s = z3.Solver()
+    s.add(*hyps)
+    s.add(z3.Not(c))
+    r2 = cli_check(s, '/usr/bin/z3', max(3, timeout_ms // 2000))
+    if r2 == 'unsat':
+        return 'proved', 'z3-4.8.12-cli', 'cli', None
+    if extra:
+        s = z3.Solver()
+        s.add(*flat_pc)
+        s.add(z3.Not(c))
+        r2 = cli_check(s, '/usr/bin/z3', max(3, timeout_ms // 2000))
         if r2 == 'unsat':
-            ob.verdict, ob.backend = 'proved', 'cvc5'
-        elif r2 == 'sat':
-            ob.verdict, ob.backend = 'refuted', 'cvc5'
-    ob.seconds = time.time() - t
+            return 'proved', 'z3-4.8.12-cli', 'cli-full', None
+    r, s = attempt(flat_pc, third)
+    if r == z3.unsat:
+        return 'proved', 'z3', 'default', None
+    if r == z3.sat:
+        return 'refuted', 'z3', '', model_to_py(s.model())
+    note = s.reason_unknown()
+    r, s = attempt(flat_pc, third, {'smt.mbqi': False, 'smt.random_seed': 7})
+    if r == z3.unsat:
+        return 'proved', 'z3', 'ematch-seed7', None
+    return 'undecided', 'z3', note, None
+
+
+def cli_check(solver, exe, timeout_s):
+    try:
+        smt = solver.to_smt2()
+    except Exception:
+        return None
+    with tempfile.NamedTemporaryFile('w', suffix='.smt2', delete=False, dir=os.environ.get('PYVC_TMP') or None) as f:
+        f.write(smt)
+        path = f.name
+    try:
+        p = subprocess.run([exe, '-T:%d' % int(timeout_s), path], capture_output=True, text=True, timeout=timeout_s + 5)
+        out = p.stdout.strip().splitlines()
+        return out[0] if out and out[0] in ('sat', 'unsat') else None
+    except Exception:
+        return None
+    finally:
+        try:
+            os.unlink(path)
+        except OSError:
+            pass
+
+
+def flatten_and(fs):
+    out, stack = [], list(reversed(fs))
+    while stack:
+        f = stack.pop()
+        if z3.is_and(f):
+            stack.extend(reversed(f.children()))
+        else:
+            out.append(f)
+    return out
 
 
 def skolemize(goal):
@@ -304,23 +414,45 @@ def skolemize(goal):
     return go(goal), sk
 
 
+_NTH_IDX = {}
+
+
 def ground_terms(fs, sort, limit=40):
-    """ground subterms of the given sort that occur as arguments of selects / nth / uninterpreted applications"""
-    out, seen, stack = {}, set(), list(fs)
-    while stack and len(seen) < 30000:
-        f = stack.pop()
-        i = f.get_id()
-        if i in seen:
-            continue
-        seen.add(i)
-        if z3.is_quantifier(f):
-            continue
-        if z3.is_app(f):
-            for c in f.children():
-                stack.append(c)
-                if c.sort().eq(sort) and not z3.is_int_value(c) and f.decl().kind() in (z3.Z3_OP_SELECT, z3.Z3_OP_SEQ_NTH, z3.Z3_OP_UNINTERPRETED, z3.Z3_OP_SEQ_AT, z3.Z3_OP_SEQ_EXTRACT):
-                    if not has_var(c):
-                        out[c.get_id()] = c
+    """ground subterms of the given sort that occur as index of nth / key of a select / argument of an uninterpreted function
+    (these are what the triggers of the hypotheses look like); later formulas first"""
+    out, seen = {}, set()
+    is_int = sort.eq(z3.IntSort())
+    for root in reversed(fs):
+        stack = [root]
+        while stack and len(seen) < 60000:
+            f = stack.pop()
+            i = f.get_id()
+            if i in seen:
+                continue
+            seen.add(i)
+            if z3.is_quantifier(f) or not z3.is_app(f):
+                continue
+            kind = f.decl().kind()
+            ch = f.children()
+            stack.extend(ch)
+            if kind in (z3.Z3_OP_SEQ_NTH, z3.Z3_OP_SEQ_AT) or (kind == z3.Z3_OP_UNINTERPRETED and f.decl().name() in ('seq.nth_i', 'seq.nth_u')):
+                cands = ch[1:2]
+                for c in cands:
+                    if c.sort().eq(sort) and not z3.is_int_value(c) and not has_var(c):
+                        _NTH_IDX.setdefault(c.get_id(), c)
+            elif kind == z3.Z3_OP_SELECT:
+                cands = ch[1:]
+            elif kind == z3.Z3_OP_UNINTERPRETED:
+                cands = ch
+            else:
+                continue
+            for c in cands:
+                if c.sort().eq(sort) and not z3.is_int_value(c) and not has_var(c):
+                    if is_int and z3.is_app(c) and c.decl().kind() == z3.Z3_OP_SELECT:
+                        continue      # object references used as array indices are not sequence positions
+                    out.setdefault(c.get_id(), c)
+        if len(out) >= limit:
+            break
     return list(out.values())[:limit]
 
 
@@ -345,9 +477,11 @@ def instances(pc, goal_sk, sk, qf, limit=400):
     cands = {}
     for c in sk:
         cands.setdefault(c.sort().name(), []).append(c)
+    _NTH_IDX.clear()
     for srt in (z3.IntSort(), V):
-        for g in ground_terms([goal_sk] + qf[-60:], srt):
+        for g in ground_terms(qf + [goal_sk], srt):
             cands.setdefault(srt.name(), []).append(g)
+    pair_cands = list(_NTH_IDX.values())[:10]
 
     def inst(f, guard):
         if len(out) >= limit:
@@ -358,6 +492,17 @@ def instances(pc, goal_sk, sk, qf, limit=400):
                 out.append(z3.Implies(guard, b) if guard is not None else b)
                 if len(out) >= limit:
                     return
+        elif z3.is_quantifier(f) and f.is_forall() and f.num_vars() == 2 and f.var_sort(0).eq(f.var_sort(1)):
+            cs = pair_cands if f.var_sort(0).eq(z3.IntSort()) else cands.get(f.var_sort(0).name(), [])[:10]
+            for c1 in cs:
+                for c2 in cs:
+                    if c1.get_id() == c2.get_id():
+                        continue
+                    # de Bruijn: variable 0 is the innermost (last declared) one
+                    b = z3.substitute_vars(f.body(), c2, c1)
+                    out.append(z3.Implies(guard, b) if guard is not None else b)
+                    if len(out) >= limit:
+                        return
         elif z3.is_and(f):
             for c in f.children():
                 inst(c, guard)
@@ -369,7 +514,19 @@ def instances(pc, goal_sk, sk, qf, limit=400):
     return out
 
 
+_aq_cache = {}
+
+
 def any_quantifier(fs):
+    if len(fs) == 1:
+        k = fs[0].get_id()
+        if k not in _aq_cache:
+            _aq_cache[k] = (_any_quantifier(fs), fs[0])     # keep the ast alive so that the id is not reused
+        return _aq_cache[k][0]
+    return any(any_quantifier([f]) for f in fs)
+
+
+def _any_quantifier(fs):
     seen = set()
     stack = list(fs)
     n = 0
